@@ -14,6 +14,7 @@ import rsx
 import unit as unitmod
 import verus_run
 import kani_run
+import gen_run
 
 ASSUMPTION_PATTERNS = [r"\bassume\s*\(", r"\badmit\s*\(", r"external_body", r"assume_specification",
                        r"exec_allows_no_decreases_clause", r"#\[verifier::external", r"\bunsafe\b",
@@ -364,6 +365,8 @@ def check_property(root, repo, prop, tier, seed, keep=False):
             continue
         if us["kind"] == "verus":
             results.append(run_verus_unit(root, repo, us["name"], tier, seed, os.path.join(work, us["name"])))
+        elif us["kind"] == "gen":
+            results.append(gen_run.run_gen_unit(root, repo, us, prop, tier, seed, os.path.join(work, "gen")))
         elif us["kind"] == "native":
             results.append(run_native_unit(root, repo, us, prop, tier, seed, os.path.join(work, "native_" + us["name"])))
         elif us["kind"] == "kani":
@@ -404,7 +407,7 @@ def check_property(root, repo, prop, tier, seed, keep=False):
             cex = f.get("counterexample")
             json.dump(dict(property=prop, unit=r["unit"], engine=r["kind"], obligation=f["id"], function=f.get("function"),
                            message=f["message"], clause=f.get("clause", ""), tags=f["tags"],
-                           failing_input=cex, replay_test=f.get("replay_test"), replay_native=f.get("replay_native"),
+                           failing_input=cex, replay_test=f.get("replay_test"), replay_native=f.get("replay_native"), replay_gen=f.get("replay_gen"),
                            verifier_output=f.get("output", "")[:20000],
                            how_to_replay="./check %s --replay %s" % (prop, rp)), open(rp, "w"), indent=1)
             replay_paths.append(rp)
@@ -488,6 +491,11 @@ def replay(root, repo, prop, path):
     print("replay of %s: obligation %s (%s)" % (prop, d.get("obligation"), d.get("message")))
     if d.get("replay_test"):
         return kani_run.run_replay_test(root, repo, d)
+    if d.get("replay_gen"):
+        rc = gen_run.replay(root, repo, d)
+        if rc == 1:
+            print("VIOLATION property=%s replay=%s" % (prop, path))
+        return rc
     if d.get("replay_native"):
         rc = replay_native(root, repo, d)
         if rc == 1:
